@@ -95,6 +95,11 @@ def cases(tier, seed):
                "strength": float(rng.uniform(0.3, 3.0)), "eps_SY": float(gen.pick(rng, [2.2e-16, 1e-2, 0.1, 0.3, 0.5])),
                "rewrite": gen.pick(rng, ["new_deque", "same_deque", "same_arrays"]), "undefined_at": None, "fd_step": None,
                "units": None if faint else float(10.0 ** -rng.uniform(9, 13))}
+    for i in range(150 if tier == "quick" else 5000):
+        ps = gen.rand_spec(rng, ("qp", "qp_quartic"), nmax=8, nmin=2, boxes=("mixed", "boxed", "lower", "boxed"), starts=("interior", "face"), condmax=1e2)
+        yield {"kind": "switch_at_solution", "problem": ps, "maxcor": int(rng.integers(1, 7)), "maxiter": int(rng.integers(3, 12)),
+               "variant": gen.pick(rng, ["rescale", "reg", "reg", "reg"]), "vseed": int(rng.integers(0, 2**31 - 1)), "strength": float(rng.uniform(0.3, 3.0)),
+               "rewrite": gen.pick(rng, ["new_deque", "same_deque", "same_arrays"])}
     nr = 200 if tier == "quick" else 8000
     for i in range(nr):
         ps = gen.rand_spec(rng, ("qp", "qp_quartic"), nmax=8, nmin=2, boxes=("none", "mixed", "boxed", "lower"),
@@ -646,9 +651,61 @@ def run_in_place_vs_copy(spec, out):
     out.sample = dict(spec=spec)
 
 
+def run_switch_at_solution(spec, out):
+    """The run starts at the solution of the old objective (a constrained stationary point: zero projected gradient) and the update
+    function switches to the new objective at its initial invocation, before any iteration: with nothing stored yet, "restarting on the
+    new objective from the rewritten history" is a plain run on the new objective from the same start - same iterates, same length."""
+    P0 = gen.make_problem(spec["problem"])
+    fB, gB, desc = make_fB(P0, spec)
+    cfg = dict(jac="callable", maxcor=spec["maxcor"], maxls=20, maxiter=spec["maxiter"], ftol=0.0, gtol=1e-8, cb="never", maxfun=10000)
+    sol = probes.run_min(P0, dict(cfg, maxiter=500, gtol=1e-13, cb=None))
+    out.count("switch_at_solution_runs")
+    if sol.exc is not None or not np.all(np.isfinite(sol.result.x)) or gen.pg_inf(sol.result.x, P0.g(np.array(sol.result.x, copy=True)), P0.lb, P0.ub) > 1e-9:
+        out.count("switch_never_reached")
+        return
+    xs = np.array(sol.result.x, dtype=float, copy=True)
+    S = Switched(P0, fB, gB)
+    info = {"calls": 0}
+
+    def ufd(x, f0, f0_old, grad, X, G):
+        j = info["calls"]
+        info["calls"] += 1
+        if j == 0 and not S.on:
+            S.on = True
+            Gn = rewritten_history(spec, X, G, gB)
+            return fB(np.array(x, copy=True)), fB(np.array(x, copy=True)), gB(np.array(x, copy=True)), Gn
+        return f0, f0_old, grad, G
+
+    live = probes.run_min(S, cfg, hooks={"ufd": ufd}, x0=xs.copy())
+    PB = Switched(P0, fB, gB)
+    PB.on = True
+    ref = probes.run_min(PB, cfg, x0=xs.copy())
+    name = f"switch at the solution of the old objective: {P0.spec['family']} n={P0.n} box={P0.spec['box']} maxcor={spec['maxcor']} {desc}"
+    tags = dict(kind="switch_at_solution", variant=spec["variant"])
+    if live.exc is not None or ref.exc is not None:
+        if (live.exc is None) != (ref.exc is None):
+            out.violate("switch_run_raised", f"{name}: run with the update function {'raised ' + repr(live.exc) if live.exc else 'returned'}, plain run on the new "
+                        f"objective {'raised ' + repr(ref.exc) if ref.exc else 'returned'}", exc=type(live.exc or ref.exc).__name__, **tags)
+        return
+    out.count("switch_at_solution_runs_compared")
+    ex = float(np.max(np.abs(np.asarray(live.snap["x"]) - np.asarray(ref.snap["x"]))) / max(1.0, float(np.max(np.abs(ref.snap["x"])))))
+    if int(live.snap["nit"]) != int(ref.snap["nit"]) or live.snap["message"] != ref.snap["message"] or not (ex <= XT):
+        out.violate("continuation_differs_from_restart_on_new_objective", f"{name}: started at the old solution with the switch made at the initial invocation, the run ends "
+                    f"after {live.snap['nit']} iterations with {live.snap['message']!r}; a run on the new objective from the same start makes {ref.snap['nit']} "
+                    f"iterations and ends with {ref.snap['message']!r} (x differs by {ex:.3e})", **tags)
+        return
+    out.nontrivial = int(ref.snap["nit"]) >= 1
+    out.sample = dict(spec=spec, nit=int(ref.snap["nit"]))
+
+
 def run(spec):
     out = Outcome()
-    if spec["kind"] == "identity":
+    if spec["kind"] == "switch_at_solution":
+        run_switch_at_solution(spec, out)
+        out.key = f"switch_at_solution/{spec['problem']['seed']}/{spec['vseed']}"
+        if out.sample is None:
+            out.sample = dict(spec=spec)
+    elif spec["kind"] == "identity":
         run_identity(spec, out)
         out.key = f"identity/{spec['problem']['family']}/{spec['problem']['seed']}"
         out.sample = dict(spec=spec)
